@@ -11,6 +11,7 @@ import (
 	"strconv"
 	"strings"
 	"sync"
+	"sync/atomic"
 
 	"github.com/kubeshark/base/pkg/api"
 
@@ -36,6 +37,8 @@ func main() {
 		emitStress(os.Args[2:])
 	case "emit-multi":
 		emitMulti(os.Args[2:])
+	case "emit-fresh":
+		emitFresh(os.Args[2:])
 	default:
 		os.Exit(2)
 	}
@@ -268,6 +271,54 @@ func emitStress(args []string) {
 	}
 	fmt.Printf("{\"expected\":%d,\"delivered\":%d,\"distinct\":%d,\"duplicates\":%d,\"matched\":%d,\"count\":%d}\n",
 		g*per, n, len(seen), dup, stats.MatchedPairs, stream.GetIndex())
+}
+
+// emit-fresh <trials> <goroutines>: the very first Emit calls of a fresh Emitting, released together
+// through a spin gate (whatever Emit sets up on first use is set up under contention); every trial
+// must deliver one item per goroutine with distinct indices 0..g-1.
+func emitFresh(args []string) {
+	trials, g := atoi(args[0]), atoi(args[1])
+	bad, firstBad := 0, ""
+	for t := 0; t < trials; t++ {
+		stream := &mock.Stream{PcapId: "s"}
+		stats := &api.AppStats{}
+		ch := make(chan *api.OutputChannelItem, g)
+		em := &api.Emitting{AppStats: stats, Stream: stream, OutputChannel: ch}
+		var gate int32
+		var ready, wg sync.WaitGroup
+		for i := 0; i < g; i++ {
+			ready.Add(1)
+			wg.Add(1)
+			go func() {
+				defer wg.Done()
+				ready.Done()
+				for atomic.LoadInt32(&gate) == 0 {
+				}
+				em.Emit(&api.OutputChannelItem{})
+			}()
+		}
+		ready.Wait()
+		atomic.StoreInt32(&gate, 1)
+		wg.Wait()
+		close(ch)
+		seen := map[int64]int{}
+		n := 0
+		for it := range ch {
+			seen[it.Index]++
+			n++
+		}
+		ok := n == g && len(seen) == g && int(stats.MatchedPairs) == g
+		for i := 0; i < g && ok; i++ {
+			ok = seen[int64(i)] == 1
+		}
+		if !ok {
+			bad++
+			if firstBad == "" {
+				firstBad = fmt.Sprintf("trial %d: delivered=%d distinct=%d matched=%d", t, n, len(seen), stats.MatchedPairs)
+			}
+		}
+	}
+	fmt.Printf("{\"trials\":%d,\"goroutines\":%d,\"bad\":%d,\"first_bad\":%q}\n", trials, g, bad, firstBad)
 }
 
 // emit-multi <streams> <goroutinesPerStream> <emitsEach> <dumps>: several streams, each with its
